@@ -15,6 +15,7 @@ import socket
 import sys
 import threading
 
+import introspect as I
 import sched
 
 REPO = os.environ.get("VINEGAR_REPO", "/repo")
@@ -112,9 +113,15 @@ def _run_once(case, preempt):
             srv = m.TftpServer([BusyHandler()] if busy else [], bind_address="::", bind_port=6969)
         with sched.coop_threads():
 
+            the_lock = I.find_instance(srv, sched.CoopLock)
+
+            def flag(*needles):
+                v = I.find_named(srv, *needles, kind=bool)
+                return None if v is I.MISSING else bool(v)      # None: not observable (skipped by the judge)
+
             def snapshot():
                 mains = [w for w in s.workers[n:]]
-                return {"running": bool(srv._running), "shutdown_requested": bool(srv._shutdown_requested),
+                return {"running": flag("running"), "shutdown_requested": flag("shutdown"),
                         "thread_alive": any(w.state != "done" for w in mains),
                         "socket_open": any(not x.closed for x in LifeSocket.registry),
                         "sockets_open": sum(1 for x in LifeSocket.registry if not x.closed),
@@ -143,11 +150,11 @@ def _run_once(case, preempt):
                                    line_funcs=LINE_FUNCS, max_steps=int(case.get("max_steps", 6000)))
 
             def on_release(idx, lock):
-                if lock is not srv._running_lock or idx is None:
+                if lock is not the_lock or idx is None:
                     return
                 if idx < n:
                     events.append({"k": "cs", "t": idx, "state": snapshot()})
-                elif srv._shutdown_requested:
+                elif flag("shutdown"):
                     events.append({"k": "srv_sees_shutdown", "t": idx, "state": snapshot()})
 
             def on_worker_end(idx):
